@@ -37,6 +37,8 @@ var vkACLClients = []vkACLClient{
 	{"out6", "[2001:db9::1]:40000", false},
 	{"mapped-in", "[::ffff:198.51.100.5]:40000", true}, // an IPv4-mapped source counts as IPv4
 	{"mapped-out", "[::ffff:203.0.113.9]:40000", false},
+	// the address/port pair sdns uses internally to mark its own sub-queries, arriving from the network
+	{"sentinel-out", "127.0.0.255:0", false},
 }
 
 type vkACLCase struct {
@@ -171,6 +173,17 @@ func TestVerifC17Server(t *testing.T) {
 					if c.OverBudget() {
 						c.Cap("time budget")
 						return
+					}
+					if e.proto != "udp" || (e.path != string(vkPathStrict) && e.path != string(vkPathInline)) {
+						// a source port of 0 exists on datagrams only, and only the engine paths run the engine's
+						// own ingress decoding of the remote address
+						skip := false
+						for _, ci := range sq {
+							skip = skip || vkACLClients[ci].Name == "sentinel-out"
+						}
+						if skip {
+							continue
+						}
 					}
 					cs := vkACLCase{Path: e.path, Proto: e.proto, Seq: sq, Target: target, OPT: opt}
 					v, out := vkACLRun(w, cs)
